@@ -139,3 +139,28 @@ Proof.
   - apply G. unfold norm_neg, lenZ. rewrite C. reflexivity.
   - apply G. unfold norm_neg. rewrite C. reflexivity.
 Qed.
+
+(* ---- read-only predicates: for k in it: if c(k): return False ... return True  =  forallb ------------- *)
+Lemma no_exists_forall {A} (f : A -> bool) l :
+  (if existsb (fun k => negb (f k)) l then false else true) = forallb f l.
+Proof. induction l as [|x l IH]; simpl; [reflexivity|]. destruct (f x); simpl; [exact IH|reflexivity]. Qed.
+
+Lemma no_exists_forall_neg {A} (f : A -> bool) l :
+  (if existsb f l then false else true) = forallb (fun k => negb (f k)) l.
+Proof. induction l as [|x l IH]; simpl; [reflexivity|]. destruct (f x); simpl; [reflexivity|exact IH]. Qed.
+
+(* what m_step1 returns for these calls, read off the model *)
+Theorem source_predicates s o x :
+  snd (m_step1 gen_cfg s (IsDisjoint o)) = Ok (RBool (src_isdisjoint s o)) /\
+  snd (m_step1 gen_cfg s (IsSubset o)) = Ok (RBool (src_issubset s o)) /\
+  snd (m_step1 gen_cfg s (IsSuperset o)) = Ok (RBool (src_issuperset s o)) /\
+  snd (m_step1 gen_cfg s (Count x)) = Ok (RNat (src_count s x)) /\
+  snd (m_step1 gen_cfg s (Contains x)) = Ok (RBool (src_contains s x)) /\
+  snd (m_step1 gen_cfg s Len) = Ok (RNat (src_len s)).
+Proof.
+  unfold src_isdisjoint, src_issubset, src_issuperset, src_count, src_contains, src_len. cbn [m_step1 snd].
+  repeat split.
+  - rewrite no_exists_forall_neg. reflexivity.
+  - rewrite no_exists_forall. reflexivity.
+  - rewrite no_exists_forall. reflexivity.
+Qed.
